@@ -57,7 +57,10 @@ def _display_all(cases):
                             id_database=os.path.join(td, "ids.db"), config="DEFAULT")
     fpn = {"br": "bottom-right", "tr": "top-right", "tl": "top-left", "bl": "bottom-left"}
     res = []
-    for c in cases:
+    for n_case, c in enumerate(cases):
+        if c.get("k") == "alloc":
+            res.append(_alloc_scenario(c, td, n_case))
+            continue
         out.seek(0)
         out.truncate()
         sc, sr, ec, er = c["rect"]
@@ -78,6 +81,94 @@ def _display_all(cases):
     import shutil
     shutil.rmtree(td, ignore_errors=True)
     return res
+
+
+def _alloc_scenario(c, td, n_case):
+    """One long-lived TupimageTerminal whose ID space is CONFIGURED (object or text, through one of the configuration layers,
+    possibly changed later through the `id_space` property); images are given IDs by the library (assign_id / upload_and_display,
+    default or explicit space in any accepted form) and displayed through the high-level path. Returns per step
+    [status, display bytes hex, returned placeholder, id]."""
+    from tupimage import id_manager as im
+    from tupimage.tupimage_terminal import TupimageConfig, TupimageTerminal
+
+    def scrub():
+        for v in list(os.environ):
+            if v.startswith("TUPIMAGE"):
+                del os.environ[v]
+
+    def value(name, form):
+        if form["t"] == "obj":
+            return im.IDSpace(form["v"][0], bool(form["v"][1])) if name == "id_space" else im.IDSubspace(form["v"][0], form["v"][1])
+        return form["v"]
+
+    scrub()
+    out, cmd = io.BytesIO(), io.BytesIO()
+    cfg = c.get("cfg") or {}
+    via = cfg.get("via", "kwargs")
+    vals = {k: value(k, cfg[k]) for k in ("id_space", "id_subspace") if k in cfg}
+    base = dict(out_command=cmd, out_display=out, in_response=io.BytesIO(), id_database=os.path.join(td, f"alloc{n_case}.db"),
+                num_tmux_layers=0, upload_method="direct")
+    steps_out = []
+    try:
+        if via == "kwargs":
+            term = TupimageTerminal(config="DEFAULT", **base, **vals)
+        elif via == "overrides":
+            term = TupimageTerminal(config="DEFAULT", config_overrides=dict(vals), **base)
+        elif via == "env":
+            for k, v in vals.items():
+                os.environ["TUPIMAGE_" + k.upper()] = str(v)
+            term = TupimageTerminal(config="DEFAULT", **base)
+        elif via == "toml":
+            path = os.path.join(td, f"alloc{n_case}.toml")
+            with open(path, "w") as f:
+                for k, v in vals.items():
+                    f.write(f'{k} = "{v}"\n')
+            term = TupimageTerminal(config=path, **base)
+        elif via == "property":
+            term = TupimageTerminal(config="DEFAULT", **base)
+            for k, v in vals.items():
+                setattr(term, k, v)
+        elif via == "cfgobj":
+            term = TupimageTerminal(config=TupimageConfig(**vals), **base)
+        else:
+            raise KeyError(via)
+    except Exception as e:          # noqa: BLE001
+        scrub()
+        return ["alloc", [["err ctor " + type(e).__name__ + ": " + str(e)[:200], "", None, None]]]
+    try:
+        for st in c["steps"]:
+            if st["op"] == "set":
+                for k in ("id_space", "id_subspace"):
+                    if k in st:
+                        setattr(term, k, value(k, st[k]))
+                steps_out.append(["set", "", None, None])
+                continue
+            arg = None
+            if st.get("spa") and st["spa"]["t"] != "none":
+                arg = value("id_space", st["spa"])
+            out.seek(0)
+            out.truncate()
+            try:
+                if st.get("how") == "uad":
+                    from PIL import Image
+                    img = Image.new("RGB", (4, 4), (st["img"] & 255, (st["img"] >> 8) & 255, (st["img"] >> 16) & 255))
+                    r = term.upload_and_display(img, cols=st["cols"], rows=st["rows"], id_space=arg, fewer_diacritics=bool(st["fewer"]),
+                                                final_cursor_pos="bottom-right")
+                else:
+                    inst = term.assign_id(f":c14:{st['img']}", cols=st["cols"], rows=st["rows"], id_space=arg)
+                    out.seek(0)
+                    out.truncate()
+                    r = term.display_only(inst, fewer_diacritics=bool(st["fewer"]), final_cursor_pos="bottom-right")
+                steps_out.append(["ok", out.getvalue().hex(), [r.image_id, r.placement_id, r.start_col, r.start_row, r.end_col, r.end_row], r.image_id])
+            except Exception as e:          # noqa: BLE001
+                steps_out.append(["err " + type(e).__name__ + ": " + str(e)[:200], out.getvalue().hex(), None, None])
+    finally:
+        scrub()
+        try:
+            term.id_manager.close()
+        except Exception:          # noqa: BLE001
+            pass
+    return ["alloc", steps_out]
 
 
 def host_main():
@@ -195,10 +286,54 @@ def _judge(ctx: Ctx, c, res, p, replies, req0=""):
         ctx.violation("cursor does not end at the expected position", c, {"cursor": sp["cur"], "expected": cur}, key="final-cursor")
 
 
+def _judge_alloc(ctx: Ctx, c: dict, res):
+    """F for an allocation scenario: the placeholder of every library-allocated ID, as really printed, uses a true-colour
+    foreground only if the space that APPLIES to the request (explicit argument, else the configured one) has 24 colour bits and
+    a third diacritic only if that space uses it, and decodes to the returned ID. K: the bytes against the display model."""
+    d = ctx.driver("drv_ph")
+    ctx.count("alloc-scenarios")
+    ctx.count("alloc-config-via:" + (c.get("cfg") or {}).get("via", "kwargs"))
+    for st, r in zip(c["steps"], res[1]):
+        if st["op"] == "set":
+            continue
+        if r[0] != "ok":
+            if r[0].startswith("err ctor"):
+                ctx.violation("the terminal could not be constructed with a documented form of the ID space", c, r[0], key="alloc-raises")
+                return
+            ctx.violation("allocation + display raised for a documented form of the ID space", c, {"step": st, "error": r[0]}, key="alloc-raises")
+            continue
+        rid, cols, rows = r[3], st["cols"], st["rows"]
+        cb, u3 = st["expect"]
+        ctx.count(f"alloc-space:{cb}:{int(bool(u3))}")
+        ctx.count("alloc-form:" + (st.get("spa") or {"t": "none"})["t"])
+        c2 = dict(k="disp", id=rid, fewer=st["fewer"], rect=[0, 0, cols, rows], bg=["none"], fp="br", W=cols + 1, H=rows + 1, x0=0, y0=0)
+        p, reqs = _reqs(c2, r)
+        replies = d.ask_many(reqs)
+        _judge(ctx, c2, r, p, replies, reqs[0])
+        if len(replies) < 2:
+            continue
+        sp = U.parse_spec(replies[1])
+        rgb = [list(k) for k, v in sorted(sp["cells"].items()) if v[0] == PH and v[2].startswith("r")]
+        third = [list(k) for k, v in sorted(sp["cells"].items()) if v[0] == PH and len(v[1]) >= 3]
+        detail = {"step": st, "allocated_id": rid, "applicable_space": [cb, u3]}
+        if rgb and cb != 24:
+            ctx.violation("true-colour foreground used for an ID the library allocated under a space without 24 colour bits", c,
+                          dict(detail, cells=rgb[:3]), key="truecolor-in-small-space")
+        if third and not u3:
+            ctx.violation("third diacritic used for an ID the library allocated under a space without the third diacritic", c,
+                          dict(detail, cells=third[:3]), key="third-diacritic-in-space-without")
+
+
 def run_batch(ctx: Ctx, batch):
     if not batch:
         return
     results = host(batch)
+    for c, res in zip(batch, results):
+        if c.get("k") == "alloc":
+            _judge_alloc(ctx, c, res)
+            ctx.case(c, nontrivial=any(r[0] == "ok" for r in res[1]))
+    pairs = [(c, res) for c, res in zip(batch, results) if c.get("k") != "alloc"]
+    batch, results = [x[0] for x in pairs], [x[1] for x in pairs]
     prep = [(c, res) + _reqs(c, res) for c, res in zip(batch, results)]
     flat = [r for (_, _, _, reqs) in prep for r in reqs]
     replies = ctx.driver("drv_ph").ask_many(flat)
@@ -211,6 +346,8 @@ def run_batch(ctx: Ctx, batch):
 
 def check_case(ctx: Ctx, c: dict):
     res = host([c])[0]
+    if c.get("k") == "alloc":
+        return _judge_alloc(ctx, c, res)
     p, reqs = _reqs(c, res)
     _judge(ctx, c, res, p, ctx.driver("drv_ph").ask_many(reqs), reqs[0])
 
@@ -248,9 +385,47 @@ def mk(rng, n, **kw):
     return place(rng, c)
 
 
+def alloc_case(rng):
+    from .c01 import ALIASES, CFG_VIAS, SPACES as SP5, _space_form
+    via = rng.choice(CFG_VIAS)
+    text_only = via in ("env", "toml")
+    cur = rng.choice(SP5)
+    cfg = {"via": via, "id_space": _space_form(rng, cur, allow_int=(via == "cfgobj"), allow_obj=not text_only)}
+    if rng.random() < 0.3:
+        b = rng.choice([0, 1, 7, 200])
+        cfg["id_subspace"] = {"t": "str", "v": f"{b}:{b + rng.choice([2, 3, 56])}"}
+    steps = []
+
+    def show():
+        st = {"op": "show", "how": rng.choice(["assign", "assign", "uad"]), "img": rng.randrange(1 << 24), "cols": rng.choice([1, 2, 3]),
+              "rows": rng.choice([1, 2]), "fewer": rng.randrange(2)}
+        if rng.random() < 0.3:
+            sp = rng.choice(SP5)
+            f = _space_form(rng, sp)
+            st["spa"] = f
+        else:
+            sp = cur
+            st["spa"] = {"t": "none"}
+        st["expect"] = [sp[0], bool(sp[1])]
+        steps.append(st)
+
+    show()
+    for _ in range(rng.randrange(1, 4)):
+        if rng.random() < 0.6:
+            cur = rng.choice(SP5)
+            steps.append({"op": "set", "id_space": _space_form(rng, cur, allow_int=False)})
+        show()
+        if rng.random() < 0.5:
+            show()
+    return {"k": "alloc", "cfg": cfg, "steps": steps}
+
+
 def cases(ctx: Ctx):
     rng = ctx.rng
     quick = ctx.quick
+    # IDs the library allocates itself under a configured space (text aliases, every configuration layer, default changed later)
+    for _ in range(120 if quick else 1500):
+        yield alloc_case(rng)
     # byte-class products: every ID shape of every space
     for b3, b2, b1, b0 in itertools.product(U.BYTECLS, repeat=4):
         n = (b3 << 24) | (b2 << 16) | (b1 << 8) | b0
@@ -284,7 +459,10 @@ def cases(ctx: Ctx):
 
 
 def run(ctx: Ctx):
-    ctx.rule = ("cases: display_only(id or ImagePlaceholder, rectangle, fewer_diacritics, background none/int/'#rrggbb', abs_pos, "
+    ctx.rule = ("cases: allocation scenarios (one long-lived TupimageTerminal, ID space configured as object / text alias through keyword, "
+                "config_overrides, environment, config file, property or TupimageConfig, changed through the property between requests; "
+                "assign_id + display_only(instance) and upload_and_display with the default or an explicit space in object/text/int form; "
+                "features judged against the space that applies to the request); display_only(id or ImagePlaceholder, rectangle, fewer_diacritics, background none/int/'#rrggbb', abs_pos, "
                 "use_line_feeds, final_cursor_pos) for every byte-class ID (each byte in {0,1,127,128,255}) with and without "
                 "fewer_diacritics, random IDs of each of the 5 spaces; thorough: every ID of the spaces 0-colour+3rd, 8bit, "
                 "8bit_diacritic (IDSpace.all_ids, 65 535 IDs) x fewer_diacritics. distinct = canonical JSON; non-trivial = output produced")
